@@ -35,6 +35,7 @@ MC_Fns == {}
 MC_SOps == {"+", "-", "*", "/", "**"}
 MC_VOps == {"+", "*", "/", "-"}
 MC_Senses == {"<=", ">=", "=="}
+MC_SingValues == {}
 MC_Want == {}
 MC_NoPR(o) == <<>>
 ASSUME PrintT(<<"BASE", BaseCalls, BaseHeap, AllNames, SliceTab>>)
